@@ -16,8 +16,8 @@ def run(res, replay=None):
     res.rule = ('cdf stream: random configurations (one locus: n<=4, 1-3 demes, three models, 1-3 epochs; two loci: n<=3, '
                 'Kingman); cdf at 0, interior points, exact epoch boundaries and beyond the last change (scalar and array '
                 'calls) compared with the Gallina model in binary64 (1e-9 absolute); quantile(q) for q in {0.05, 0.5, 0.9, '
-                '0.99}: the MODEL cdf at the returned time must be within 1e-5 of q; pdf against the central difference of '
-                'the model cdf; oracles on the implementation: cdf(0)=0, non-decreasing, within [0,1], -> 1, integral of '
+                '0.99}: the MODEL cdf at the returned time must be within 1e-5 of q; pdf(t, dx=2^-12) against the same difference '
+                'quotient of the model cdf (well defined also at epoch boundaries, where the cdf has a kink); oracles on the implementation: cdf(0)=0, non-decreasing, within [0,1], -> 1, integral of '
                 '1-cdf = mean; non-trivial = configuration with n >= 2; distinct = distinct (configuration, query)')
     res.assumptions = ['numeric model uses a Taylor/squaring exponential in binary64']
     nspec = 8 if res.tier == 'quick' else 60
@@ -46,7 +46,7 @@ def run(res, replay=None):
         cases.append({'spec': s, 'ops': ops, 'ts': ts})
     outs = C.run_impl_parallel('numeric.py', [{'cases': [{'spec': c['spec'], 'ops': c['ops']}]} for c in cases])
     bodies, keep = [], []
-    h = 2.0 ** -10
+    h = 2.0 ** -13      # half of the dx passed to pdf: the model evaluates the very same difference quotient
     for i, (c, o) in enumerate(zip(cases, outs)):
         r = o['results'][0]
         if 'error' in r or any(r['errors']):
@@ -56,6 +56,7 @@ def run(res, replay=None):
         tq = r['values'][1 + 3: 1 + 3 + len(qs_levels)]
         pdf_pts = [0.25, 1.0, 2.5]
         model_ts = list(c['ts']) + list(tq) + [x + s_ for x in pdf_pts for s_ in (-h, h)] + [0.0, 2.0 ** -12]
+        # the code's own difference quotient: x1 = max(t - dx/2, 0), x2 = x1 + dx with dx = 2^-12 (exact in binary64)
         if r['k_lc'] > 70:
             continue
         txt, _ = N.case_text(i, c['spec'], r, [dict(kind='cdf', ts=model_ts)], [])
@@ -86,10 +87,10 @@ def run(res, replay=None):
                               {'spec': c['spec'], 'q': q, 'returned_time': t, 'model_cdf_at_time': mv})
         pm = m[nts + len(tq):]
         for k_, x in enumerate(pdf_pts[:3]):
-            d_model = (pm[2 * k_ + 1] - pm[2 * k_]) / (2 * 2.0 ** -10)
+            d_model = (pm[2 * k_ + 1] - pm[2 * k_]) / 2.0 ** -12
             d_impl = r['values'][1 + 3 + 4][k_]
             res.count((key, 'pdf', x))
-            if abs(d_model - d_impl) > 1e-4 * max(abs(d_model), 1e-2) + 1e-6:
+            if abs(d_model - d_impl) > 1e-6 * abs(d_model) + 2e-6:
                 res.violation('pdf does not agree with the derivative of the cdf',
                               {'spec': c['spec'], 't': x, 'model_derivative': d_model, 'observed_pdf': d_impl})
         # density at t = 0: right derivative of the model cdf
